@@ -119,7 +119,9 @@ pub enum FsCommand {
 impl FsCommand {
     /// Obtains a lock to the file if lock == true.
     fn maybe_lock(path: &Path, lock: bool) -> io::Result<Option<FileLock>> {
-        if lock {
+        // A symbolic link itself cannot be locked: the lock would be taken on (or fail because of)
+        // the file it points to, which the command does not touch.
+        if lock && !path.to_path_buf().is_symlink() {
             match FileLock::new(path) {
                 Ok(lock) => Ok(Some(lock)),
                 Err(e) if e.kind() == ErrorKind::Unsupported => Ok(None),
